@@ -71,11 +71,11 @@ func genRegStep(r *Rng, npool int) Step {
 		}
 		return st
 	case 1:
-		return Step{Op: "named", A: r.Intn(npool + 6 + 8)}
+		return Step{Op: "named", A: r.Intn(npool + 6 + 10)}
 	case 2:
 		return Step{Op: "names"}
 	}
-	return Step{Op: "setdeco", A: r.Intn(npool + 6 + 8), B: r.Intn(4)}
+	return Step{Op: "setdeco", A: r.Intn(npool + 6 + 10), B: r.Intn(4)}
 }
 
 func (engC17) Gen(r *Rng, s *Script, idx int, tier string) {
@@ -349,6 +349,10 @@ func (engC16) Gen(r *Rng, s *Script, idx int, tier string) {
 			// a tall table (a library might treat big tables differently)
 			steps = append(steps, Step{Op: "bulkRows", A: r.Range(96, 130), B: r.Range(1, 3)})
 			s.Config["tall_table"] = 1
+		}
+		if r.Chance(1, 3) {
+			// renderer settings on columns, often only the all-columns default
+			steps = append(steps, Step{Op: "align", A: r.Pick([]int{3, 1, 1}), B: 1 + r.Intn(3)})
 		}
 		if r.Chance(1, 3) {
 			// copies of one prepared cell value (with properties) go into several tables
